@@ -71,6 +71,9 @@ func LoadEngine(patterns []string) (*Engine, error) {
 		if !isRepoPkg(pp) {
 			continue
 		}
+		if fn.TypeParams().Len() > 0 && len(fn.TypeArgs()) == 0 {
+			continue // generic origin: only its instantiations have concrete types
+		}
 		k := pp + "::" + fnKey(fn)
 		eng.funcs[k] = append(eng.funcs[k], fn)
 	}
